@@ -886,10 +886,10 @@ pub fn replay(case: &str) {
     match stream {
         "sess" => replay_script(rest, Expect::Sync),
         "sessw" | "forge" | "evict" => replay_script(rest, Expect::Nothing),
-        "hdr" => { let mut run = Run::new("c04", "/tmp/vh-replay-c04"); hdr_case(&mut run, &unhex(rest.trim())); print_fails(&run); }
+        "hdr" => { let mut run = Run::new("c04", &crate::scratch("c04-replay")); hdr_case(&mut run, &unhex(rest.trim())); print_fails(&run); }
         "rocrt" => {
             let f: Vec<&str> = rest.split_whitespace().collect();
-            let mut run = Run::new("c04", "/tmp/vh-replay-c04");
+            let mut run = Run::new("c04", &crate::scratch("c04-replay"));
             let mut pairs = roc_pairs();
             let pair = pairs.iter_mut().find(|p| p.prof == f[0]).unwrap();
             roc_roundtrip(&mut run, pair, f[1].parse().unwrap(), f[2].parse().unwrap(), f[3].parse().unwrap());
@@ -912,7 +912,7 @@ pub fn replay(case: &str) {
 fn print_fails(run: &Run) { for f in &run.fails { println!("ORACLE-FAIL {} {}", f.signature, f.detail); } }
 fn replay_script(s: &str, expect: Expect) {
     let ops = parse_script(s);
-    let mut run = Run::new("c04", "/tmp/vh-replay-c04");
+    let mut run = Run::new("c04", &crate::scratch("c04-replay"));
     let (res, _) = run_script(&ops, false);
     println!("impl: {}", results_text(&res));
     emit(&mut run, "sess", &Case { ops, expect, kind: "replay", three: expect == Expect::Sync });
